@@ -28,9 +28,25 @@ func WithValue(parent Context, key, val any) Context { return stdctx.WithValue(p
 func WithoutCancel(parent Context) Context           { return stdctx.WithoutCancel(parent) }
 func Cause(c Context) error                          { return stdctx.Cause(c) }
 
+// pctx makes Err() — a poll of the cancellation state that races with cancel() — a scheduling point.
+// Embedding keeps Value() reaching the real cancelCtx, so children attach to it directly.
+type pctx struct{ Context }
+
+func (p pctx) Err() error {
+	vrt.Point(vrt.OpAtomic, nil)
+	return p.Context.Err()
+}
+
+func wrap(c Context) Context {
+	if !vrt.Managed() {
+		return c
+	}
+	return pctx{c}
+}
+
 func WithCancel(parent Context) (Context, CancelFunc) {
 	c, cancel := stdctx.WithCancel(parent)
-	return c, func() {
+	return wrap(c), func() {
 		vrt.CheckAbort()
 		cancel()
 		vrt.AfterCancel()
@@ -39,7 +55,7 @@ func WithCancel(parent Context) (Context, CancelFunc) {
 
 func WithCancelCause(parent Context) (Context, CancelCauseFunc) {
 	c, cancel := stdctx.WithCancelCause(parent)
-	return c, func(cause error) {
+	return wrap(c), func(cause error) {
 		vrt.CheckAbort()
 		cancel(cause)
 		vrt.AfterCancel()
